@@ -54,33 +54,42 @@ def sortRules (p : PassT) (rs : List Nat) : List Nat :=
     let (lo, hi) := acc.span (fun x => ruleLt p x r)
     lo ++ r :: hi) []
 
-/-- the merge of `accumulate_rules`, output capped at `MAX_RULES` entries -/
-def mergeRules (p : PassT) : Nat → List Nat → List Nat → List Nat
+/-- the merge of `accumulate_rules`: two lists in precedence order are merged (equal entries once) into at most `cap`
+output entries -/
+def mergeCap (p : PassT) : Nat → List Nat → List Nat → List Nat
   | 0, _, _ => []
-  | _, [], r => []      -- unreachable through `accumulate` (handled there)
-  | _, l, [] => l
-  | fuel + 1, a :: l, b :: r =>
-    if ruleLt p a b then a :: mergeRules p fuel l (b :: r)
-    else if ruleLt p b a then b :: mergeRules p fuel (a :: l) r
-    else a :: mergeRules p fuel l r
+  | _ + 1, [], [] => []
+  | c + 1, [], b :: r => b :: mergeCap p c [] r
+  | c + 1, a :: l, [] => a :: mergeCap p c l []
+  | c + 1, a :: l, b :: r =>
+    if ruleLt p a b then a :: mergeCap p c l (b :: r)
+    else if ruleLt p b a then b :: mergeCap p c (a :: l) r
+    else a :: mergeCap p c l r
 
+/-- `FiniteStateMachine::Rules::accumulate_rules(state)` -/
 def accumulate (p : PassT) (cur : List Nat) (state : List Nat) : List Nat :=
-  if state.isEmpty then cur else
-  -- while (lre != end() && out != lrend) …; afterwards the rest of the state's rules
-  let rec go (fuel : Nat) (l r : List Nat) (out : List Nat) : List Nat :=
-    match fuel with
-    | 0 => out.reverse
-    | f + 1 =>
-      if out.length = MAX_RULES then out.reverse else
-      match l, r with
-      | [], [] => out.reverse
-      | [], b :: r => go f [] r (b :: out)
-      | a :: l, [] => go f l [] (a :: out)
-      | a :: l, b :: r =>
-        if ruleLt p a b then go f l (b :: r) (a :: out)
-        else if ruleLt p b a then go f (a :: l) r (b :: out)
-        else go f l r (a :: out)
-  go (cur.length + state.length + 1) cur state []
+  if state.isEmpty then cur else mergeCap p MAX_RULES cur state
+
+/-- the state machine proper (`Pass::runFSM`'s do-loop) on the glyph ids of the slots ahead of the start slot.
+Returns `(ok, slots pushed inside the loop, whether the slot after them is pushed as well, rules in precedence order)`. -/
+def fsmScan (p : PassT) : List Nat → Nat → Nat → List Nat → Nat → Bool × Nat × Bool × List Nat
+  | [], _, _, rules, pushed => (true, pushed, true, rules)
+  | g :: rest, state, free, rules, pushed =>
+    let col := p.cols.getD g 0xFFFF
+    if g ≥ p.cols.size ∨ col = 0xFFFF then (true, pushed + 1, false, rules)      -- the glyph is in no column
+    else if free - 1 = 0 then (false, pushed + 1, false, rules)                  -- `--free_slots == 0`
+    else if state ≥ p.numTransition then (true, pushed + 1, false, rules)
+    else
+      let state' := (p.trans.getD state #[]).getD col 0
+      let rules := if state' ≥ p.successStart then accumulate p rules (sortRules p (p.ruleMap.getD (state' - p.successStart) [])) else rules
+      if state' ≠ 0 ∧ ¬ rest.isEmpty then fsmScan p rest state' (free - 1) rules (pushed + 1)
+      else (true, pushed + 1, true, rules)
+
+/-- the slots from `s` on, following `next`, at most `n` of them -/
+def ahead (seg : Seg) : Nat → Option Nat → List Nat
+  | 0, _ => []
+  | _, none => []
+  | n + 1, some s => s :: ahead seg n (seg.get s).next
 
 /-- `FiniteStateMachine::reset` + `Pass::runFSM`: `(matched, context with the slot map filled, rules in precedence order)` -/
 def runFSM (p : PassT) (c : Ctx) (slot : Nat) : Bool × Ctx × List Nat :=
@@ -98,26 +107,12 @@ def runFSM (p : PassT) (c : Ctx) (slot : Nat) : Bool × Ctx × List Nat :=
   let c := { c with smap := smap0, size := 0, context := ctxt }
   if ctxt < p.minPre then (false, c, []) else
   let state0 := p.starts.getD (p.maxPre - ctxt) 0
-  let rec loop (fuel : Nat) (c : Ctx) (slot : Option Nat) (state : Nat) (free : Nat) (rules : List Nat) : Bool × Ctx × List Nat :=
-    match fuel, slot with
-    | 0, _ => (false, c, rules)
-    | _, none => (true, c, rules)       -- not reached: the loop is entered with a slot
-    | f + 1, some s =>
-      let c := { c with smap := c.smap.setIfInBounds (c.size + 1) (some s), size := c.size + 1 }
-      let gid := (c.seg.get s).gid
-      let col := p.cols.getD gid 0xFFFF
-      if gid ≥ p.cols.size ∨ col = 0xFFFF then (true, c, rules)
-      else if free - 1 = 0 then (false, c, rules)
-      else if state ≥ p.numTransition then (true, c, rules)
-      else
-        let state' := (p.trans.getD state #[]).getD col 0
-        let rules := if state' ≥ p.successStart then accumulate p rules (sortRules p (p.ruleMap.getD (state' - p.successStart) [])) else rules
-        let nxt := (c.seg.get s).next
-        if state' ≠ 0 ∧ nxt.isSome then loop f c nxt state' (free - 1) rules
-        else
-          -- `fsm.slots.pushSlot(slot)` after the loop (possibly null)
-          (true, { c with smap := c.smap.setIfInBounds (c.size + 1) nxt, size := c.size + 1 }, rules)
-  loop (MAX_SLOTS + 1) c (some start) state0 MAX_SLOTS []
+  let window := ahead c.seg (MAX_SLOTS + 1) (some start)
+  let r := fsmScan p (window.map fun s => (c.seg.get s).gid) state0 MAX_SLOTS [] 0
+  -- the slot map: the slots pushed in the loop, then (when the loop ran to its end) the slot after them, possibly null
+  let cells : List (Option Nat) := (window.take r.2.1).map some ++ (if r.2.2.1 then [window[r.2.1]?] else [])
+  let smap := (cells.zipIdx).foldl (fun (m : Array (Option Nat)) (x : Option Nat × Nat) => m.setIfInBounds (x.2 + 1) x.1) c.smap
+  (r.1, { c with smap := smap, size := cells.length }, r.2.2.2)
 
 /-- code of a rule, decoded: instructions (with the loader's `temp_copy` insertions for action code), `deletes`, `max_ref`, data bytes -/
 structure Code where
@@ -201,21 +196,22 @@ def adjustSlot (c : Ctx) (delta : Int) (slotOut : Option Nat) : Ctx × Option Na
     fw (delta.natAbs + 1) c delta slotOut
   else (c, slotOut)
 
+/-- the search of `findNDoRule` for the first rule (in precedence order) whose constraint passes; a machine status other
+than `finished` ends the search -/
+def pickRule (p : PassT) (c : Ctx) : List Nat → Except String (Option Nat × Status)
+  | [] => .ok (none, .finished)
+  | r :: rest =>
+    match testConstraint (p.rules.getD r default) c with
+    | .error w => .error w
+    | .ok (true, _) => .ok (some r, .finished)
+    | .ok (false, st) => if st ≠ .finished then .ok (none, st) else pickRule p c rest
+
 /-- `Pass::findNDoRule`: `(context, new cursor, machine status)` -/
 def findNDoRule (p : PassT) (c : Ctx) (slot : Nat) : Except String (Ctx × Option Nat × Status) :=
   let (ok, c, rules) := runFSM p c slot
   let advance : Except String (Ctx × Option Nat × Status) := .ok (c, (c.seg.get slot).next, .finished)
   if ¬ ok then advance else
-  -- the first rule whose constraint passes
-  let rec pick (rs : List Nat) : Except String (Option Nat × Status) :=
-    match rs with
-    | [] => .ok (none, .finished)
-    | r :: rest =>
-      match testConstraint (p.rules.getD r default) c with
-      | .error w => .error w
-      | .ok (true, _) => .ok (some r, .finished)
-      | .ok (false, st) => if st ≠ .finished then .ok (none, st) else pick rest
-  match pick rules with
+  match pickRule p c rules with
   | .error w => .error w
   | .ok (none, st) => if st ≠ .finished then .ok (c, some slot, st) else advance
   | .ok (some r, _) =>
